@@ -174,4 +174,71 @@ theorem Dealer.run_hwm (c : DealerCfg) (d : Dealer) (evs : List DealerEv) : (Dea
     simp only [Dealer.run, List.foldl_cons] at ih ⊢
     rw [ih, Dealer.step_hwm]
 
+/-! ## nothing accepted is stranded: from every reachable state the processor and the session can drain everything -/
+
+def DealerEv.isSend : DealerEv → Bool
+  | .send _ => true
+  | _ => false
+
+def Dealer.todo (d : Dealer) : Nat := 3 * d.pending.length + 2 * d.hand.toList.length + d.pipe.length
+
+theorem Dealer.drain_exists (n : Nat) : ∀ d : Dealer, d.Inv → d.todo = n →
+    ∃ evs : List DealerEv, (∀ e ∈ evs, e.isSend = false) ∧ evs.length = n
+      ∧ (Dealer.run goodDealer d evs).delivered = d.accepted
+      ∧ (Dealer.run goodDealer d evs).accepted = d.accepted := by
+  induction n with
+  | zero =>
+    intro d h hn
+    refine ⟨[], by simp, rfl, ?_, rfl⟩
+    simp only [Dealer.todo] at hn
+    have hp : d.pending = [] := List.eq_nil_of_length_eq_zero (by omega)
+    have hh : d.hand.toList = [] := List.eq_nil_of_length_eq_zero (by omega)
+    have hq : d.pipe = [] := List.eq_nil_of_length_eq_zero (by omega)
+    have := h.line
+    simp only [Dealer.line, hp, hh, hq, List.append_nil] at this
+    simpa [Dealer.run] using this
+  | succ n ih =>
+    intro d h hn
+    have key : ∀ e : DealerEv, e.isSend = false → (Dealer.step goodDealer d e).todo = n →
+        (Dealer.step goodDealer d e).accepted = d.accepted →
+        ∃ evs : List DealerEv, (∀ e ∈ evs, e.isSend = false) ∧ evs.length = n + 1
+          ∧ (Dealer.run goodDealer d evs).delivered = d.accepted
+          ∧ (Dealer.run goodDealer d evs).accepted = d.accepted := by
+      intro e he ht ha
+      obtain ⟨evs, h1, h2, h3, h4⟩ := ih _ (Dealer.step_inv d e h) ht
+      refine ⟨e :: evs, ?_, by simp [h2], ?_, ?_⟩
+      · intro x hx
+        rcases List.mem_cons.mp hx with rfl | hx
+        · exact he
+        · exact h1 x hx
+      · simp only [Dealer.run, List.foldl_cons] at h3 ⊢; rw [h3, ha]
+      · simp only [Dealer.run, List.foldl_cons] at h4 ⊢; rw [h4, ha]
+    simp only [Dealer.todo] at hn
+    cases hq : d.pipe with
+    | cons m rest =>
+      apply key .sessionTake rfl
+      · simp only [Dealer.step, hq, Dealer.todo]; simp only [hq, List.length_cons] at hn; omega
+      · simp only [Dealer.step, hq]
+    | nil =>
+      cases hh : d.hand with
+      | some m =>
+        apply key .procRoute rfl
+        · simp only [Dealer.step, hh, hq, List.length_nil, Dealer.todo]
+          have : 0 < max d.cap 1 := by omega
+          simp only [this, if_true]
+          simp only [hh, hq, Option.toList_some, List.length_singleton, List.length_nil] at hn
+          simp; omega
+        · simp only [Dealer.step, hh, hq, List.length_nil]
+          have : 0 < max d.cap 1 := by omega
+          simp only [this, if_true]
+      | none =>
+        cases hp : d.pending with
+        | nil => simp [hq, hh, hp] at hn
+        | cons m rest =>
+          apply key .procPop rfl
+          · simp only [Dealer.step, hh, hp, Dealer.todo]
+            simp only [hh, hp, hq, List.length_cons, Option.toList_none, List.length_nil] at hn
+            simp [hq]; omega
+          · simp only [Dealer.step, hh, hp]
+
 end Rzmq
